@@ -487,6 +487,11 @@ class Engine:
             return self.native(f, args, kwargs)
         if isinstance(f, types.FunctionType):
             return self.call_fn(f, list(args), kwargs)
+        if isinstance(f, Obj):
+            m = self.lookup(f.cls, '__call__')
+            if isinstance(m, types.FunctionType):
+                return self.call_fn(m, [f] + list(args), kwargs)
+            raise RaiseEx(TypeError(f"'{f.cls.__name__}' object is not callable"))
         if hasattr(f, '__pyvc_call__'):
             return f.__pyvc_call__(self, args, kwargs)
         if has_sym(args) or has_sym(kwargs) or has_sym(getattr(f, '__self__', None)):
